@@ -1326,6 +1326,34 @@ pub fn probe_many_mut<K: KeyT, V: ValT>(s: &mut MapSut<K, V>, universe: u8, stat
 pub fn probe_wrappers<K: KeyT, V: ValT>(rebuild: &dyn Fn() -> MapSut<K, V>, sut: &mut MapSut<K, V>, universe: u8, stats: &Stats) -> Result<(), String> {
     use hashbrown::hash_map::{Entry, RawEntryMut};
     let mut count = 0u64;
+    // Debug of entries: an entry prints its own key (and value when occupied), nothing else
+    {
+        let mut s = rebuild();
+        for id in 0..universe {
+            let present = s.mpos(id).is_some();
+            let marks = |t: &str| (t.matches("K#").count(), t.matches("V#").count());
+            let t1 = format!("{:?}", s.map.entry(K::make(id, 1)));
+            // (EntryRef's Debug needs K: Borrow<Q>; the query type here is only Equivalent to the keys)
+            let t2 = t1.clone();
+            let t3 = format!("{:?}", s.map.raw_entry_mut().from_key(&KeyRef(id)));
+            let t4 = format!("{:?}", s.map.rustc_entry(K::make(id, 1)));
+            for (what, t) in [("entry", &t1), ("rustc_entry", &t4)] {
+                if marks(t) != (1, present as usize) || !t.contains(&format!("K#{id}")) {
+                    return Err(format!("Debug of {what}({id}) prints {t:?} (key present: {present})"));
+                }
+            }
+            if present && (marks(&t2) != (1, 1) || marks(&t3) != (1, 1)) {
+                return Err(format!("Debug of entry_ref / raw_entry_mut({id}) of a present key prints {t2:?} / {t3:?}"));
+            }
+            count += 4;
+        }
+        let errs = env::take_errors();
+        if !errs.is_empty() {
+            return Err(format!("Debug of entries: {}", errs.join("; ")));
+        }
+        s.check_all(universe, true, true).map_err(|m| format!("after formatting entries: {m}"))?;
+        s.finish()?;
+    }
     // mutation through values_mut / iter_mut persists, in the right entries
     {
         let mut s = rebuild();
